@@ -309,7 +309,8 @@ class TextFileProvider(FileProvider):
         Returns a generator of lines instead of a list of lines.
         """
         if self._exception:
-            raise self._exception
+            # the same error every streaming reader gets, whoever met it first
+            raise ContentException(str(self._exception))
         try:
             if self._content:
                 yield self._content
@@ -451,7 +452,8 @@ class CommandOutputProvider(ContentProvider):
         Returns a generator of lines instead of a list of lines.
         """
         if self._exception:
-            raise self._exception
+            # the same error every streaming reader gets, whoever met it first
+            raise ContentException(str(self._exception))
         try:
             if self._content:
                 yield self._content
